@@ -1,0 +1,55 @@
+//go:build verif
+
+// Contracts for the fvc verification-condition generator in /verif (comment-only file).
+//
+// The counting theorem of property C13 as machine-checked lemmas over the SECTION CONTRACTS of the handlers.
+//
+// The handler contracts (zz_contracts_verif.go) say, for every request and every interleaving: the store is only
+// touched inside critical sections of mux; a first section performs exactly one WINDOW STEP on the entry of the
+// request's key and on no other entry (window-step, other-keys-kept, lock invariant re-established at Unlock); the
+// request reaches c.Next iff the counter / rate after its step is at most the MaxFunc value. Because the lock
+// invariant makes every interleaving a sequence of such sections, the history of one key is a sequence of steps
+// (plus "the entry expired": state 0/0/0). The lemmas below are the induction over that sequence; the step
+// functions fwCurr/fwExp/swCurr/swPrev/swExp are the ones the handlers are verified against (clauses
+// `window-step-is-the-lemma-step`), so the lemmas are about the code, not about a separate model.
+// Scope: constant MaxFunc value `max`, no Skip* options (a skip section decrements the counter after the fact).
+//
+// adm = number of requests of the key admitted since the last roll-over (ghost admission counter).
+
+package limiter
+
+//@ props C13
+
+// ---- fixed window: one step at time ts on entry (curr, exp), window length win -------------------------------
+//@ fn fwRoll(exp int, ts int) bool = exp == 0 || ts >= exp
+//@ fn fwCurr(curr int, exp int, ts int) int = ite(exp == 0 || ts >= exp, 1, curr + 1)
+//@ fn fwExp(exp int, ts int, win int) int = ite(exp == 0 || ts >= exp, ts + win, exp)
+//@ fn fwAdmitted(curr int, exp int, ts int, max int) bool = fwCurr(curr, exp, ts) <= max
+//@ fn fwAdm(adm int, curr int, exp int, ts int, max int) int = ite(fwRoll(exp, ts), 0, adm) + ite(fwAdmitted(curr, exp, ts, max), 1, 0)
+// invariant between sections: the admission counter is the hit counter capped at max (0 for a negative max)
+//@ fn cap0(max int) int = ite(max > 0, max, 0)
+//@ fn fwInv(adm int, curr int, max int) bool = curr >= 0 && adm == ite(curr <= max, curr, cap0(max))
+
+// ---- sliding window: one step on entry (prev, curr, exp) -------------------------------------------------------
+//@ fn swRoll(exp int, ts int) bool = exp != 0 && ts >= exp
+//@ fn swCurr(curr int, exp int, ts int) int = ite(exp != 0 && ts >= exp, 1, curr + 1)
+//@ fn swPrev(prev int, curr int, exp int, ts int) int = ite(exp != 0 && ts >= exp, curr, prev)
+//@ fn swExp(exp int, ts int, win int) int = ite(exp == 0, ts + win, ite(ts >= exp, ite(ts - exp >= win, ts + win, exp + win), exp))
+//@ fn swAdm(adm int, exp int, ts int, admitted bool) int = ite(swRoll(exp, ts), 0, adm) + ite(admitted, 1, 0)
+//@ fn swInv(adm int, curr int) bool = 0 <= adm && adm <= curr
+
+// The lemmas are hosted as postconditions of New (they do not depend on the program state; New is the function
+// that hands out the handler they are about).
+//@ func New
+//@   requires package-default-intact: defaultsIntact()
+//@   requires model-sane: modelSane()
+//@   requires window-below-2-32-seconds: len(config) > 0 ==> config[0].Expiration < 4294967296000000000
+//@   requires external-store-is-ours: len(config) > 0 ==> storeIsOurs(config[0].Storage) && entriesWF(config[0].Storage)
+//@   ensures fixed-empty-entry-starts-a-window: forallI(max, fwInv(0, 0, max))
+//@   ensures fixed-step-keeps-the-count: forallI(adm, forallI(curr, forallI(exp, forallI(ts, forallI(max, fwInv(adm, curr, max) ==> fwInv(fwAdm(adm, curr, exp, ts, max), fwCurr(curr, exp, ts), max))))))
+//@   ensures fixed-at-most-max-admitted-per-window: forallI(adm, forallI(curr, forallI(max, fwInv(adm, curr, max) ==> adm <= cap0(max))))
+//@   ensures fixed-rejected-only-when-budget-used-up: forallI(adm, forallI(curr, forallI(exp, forallI(ts, forallI(max, fwInv(adm, curr, max) && !fwAdmitted(curr, exp, ts, max) ==> fwAdm(adm, curr, exp, ts, max) == cap0(max))))))
+//@   ensures fixed-counter-restarts-only-at-window-end: forallI(curr, forallI(exp, forallI(ts, fwCurr(curr, exp, ts) != curr + 1 ==> exp == 0 || ts >= exp)))
+//@   ensures sliding-empty-entry-starts-a-window: swInv(0, 0)
+//@   ensures sliding-step-keeps-the-count: forallI(adm, forallI(curr, forallI(exp, forallI(ts, swInv(adm, curr) ==> swInv(swAdm(adm, exp, ts, true), swCurr(curr, exp, ts)) && swInv(swAdm(adm, exp, ts, false), swCurr(curr, exp, ts))))))
+//@   ensures sliding-weighted-previous-plus-admitted-at-most-max: forallI(adm, forallI(curr, forallI(w, forallI(max, swInv(adm, curr) && w + curr <= max ==> w + adm <= max))))
